@@ -84,6 +84,11 @@ type Config struct {
 	Shard      int       // this worker's index
 	NShards    int       // 0 or 1 = no sharding
 	ShardDepth int       // deviation depth at which subtrees are dealt to workers (default 2)
+	// Claim, when non-nil, replaces static hashing: all workers walk the shared top of the tree in
+	// the same order; the first worker to reach a subtree root (or a shared-top execution) claims it
+	// by its sequence number and is the only one to explore (or own) it. Dynamic load balancing
+	// without any communication beyond a shared bitmap.
+	Claim func(idx int64) bool
 	// Prune, when non-nil, is consulted by harnesses through Exec-independent means; unused here.
 }
 
@@ -104,6 +109,7 @@ type node struct {
 	cost   int // cost already spent in prefix
 	ddepth int // deviation depth (number of non-default branches from the root)
 	owned  bool
+	claim  int64 // sequence number to claim when popped (0 = none)
 }
 
 func hashPrefix(p []int) uint32 {
@@ -131,9 +137,20 @@ func Explore(cfg Config, run func(x *Exec, owned bool)) Stats {
 		n = 1
 	}
 	stack := []node{{owned: cfg.Shard == 0 || n == 1}}
+	if cfg.Claim != nil && n > 1 {
+		stack[0].owned = cfg.Claim(0)
+	}
+	var seq int64
 	for len(stack) > 0 {
 		nd := stack[len(stack)-1]
 		stack = stack[:len(stack)-1]
+		if nd.claim > 0 {
+			got := cfg.Claim(nd.claim)
+			if nd.ddepth == sd && !got {
+				continue // another worker explores this subtree
+			}
+			nd.owned = got
+		}
 		if (!cfg.Deadline.IsZero() && time.Now().After(cfg.Deadline)) || (cfg.MaxExecs > 0 && st.Execs >= cfg.MaxExecs) {
 			st.Capped = true
 			break
@@ -176,7 +193,13 @@ func Explore(cfg Config, run func(x *Exec, owned bool)) Stats {
 				child[i] = alt
 				cd := nd.ddepth + 1
 				owned := nd.owned
-				if n > 1 {
+				var claim int64
+				if n > 1 && cfg.Claim != nil {
+					if cd <= sd {
+						seq++
+						claim = seq
+					}
+				} else if n > 1 {
 					if cd < sd {
 						owned = cfg.Shard == 0
 					} else if cd == sd {
@@ -187,7 +210,7 @@ func Explore(cfg Config, run func(x *Exec, owned bool)) Stats {
 					}
 					// cd > sd: inherits (only reachable inside an owned subtree)
 				}
-				stack = append(stack, node{prefix: child, expect: x.Trace[:i+1 : i+1], from: i + 1, cost: cost + p.Cost, ddepth: cd, owned: owned})
+				stack = append(stack, node{prefix: child, expect: x.Trace[:i+1 : i+1], from: i + 1, cost: cost + p.Cost, ddepth: cd, owned: owned, claim: claim})
 			}
 		}
 	}
